@@ -1114,6 +1114,18 @@ impl ASN1Value {
                 }
                 Ok(())
             }
+            (ASN1Type::ObjectIdentifier(_), ASN1Value::ObjectIdentifier(oid)) => {
+                Self::resolve_leading_oid_reference(oid, tlds, 0);
+                Ok(())
+            }
+            (ASN1Type::ObjectIdentifier(_), ASN1Value::LinkedNestedValue { value, .. })
+                if matches![**value, ASN1Value::ObjectIdentifier(_)] =>
+            {
+                if let ASN1Value::ObjectIdentifier(oid) = &mut **value {
+                    Self::resolve_leading_oid_reference(oid, tlds, 0);
+                }
+                Ok(())
+            }
             // a local time consists of digits only and has been lexed as a character string
             (ASN1Type::UTCTime(_) | ASN1Type::GeneralizedTime(_), ASN1Value::String(local)) => {
                 *self = ASN1Value::Time(std::mem::take(local));
@@ -1578,6 +1590,42 @@ impl ASN1Value {
             })
             .collect::<Result<Vec<_>, _>>()?;
         Ok(ASN1Value::SequenceOrSet(struct_value))
+    }
+
+    /// An object identifier value may start with a reference to another object identifier value,
+    /// as in `{ id-ds 4 }`. The bindings refer to the referenced value, which they can only do when it
+    /// is a plain `ObjectIdentifier`. If it is declared with a type reference (`id-ds ID ::= ..`),
+    /// its arcs take the place of the reference.
+    fn resolve_leading_oid_reference(
+        oid: &mut ObjectIdentifierValue,
+        tlds: &BTreeMap<String, ToplevelDefinition>,
+        depth: usize,
+    ) {
+        let referenced = match oid.0.first() {
+            Some(ObjectIdentifierArc {
+                name: Some(name),
+                number: None,
+            }) if depth < 64 => match tlds.get(name) {
+                Some(ToplevelDefinition::Value(ToplevelValueDefinition {
+                    associated_type: ASN1Type::ElsewhereDeclaredType(_),
+                    value,
+                    ..
+                })) => match value {
+                    ASN1Value::ObjectIdentifier(referenced) => Some(referenced.clone()),
+                    ASN1Value::LinkedNestedValue { value, .. } => match &**value {
+                        ASN1Value::ObjectIdentifier(referenced) => Some(referenced.clone()),
+                        _ => None,
+                    },
+                    _ => None,
+                },
+                _ => None,
+            },
+            _ => None,
+        };
+        if let Some(mut referenced) = referenced {
+            Self::resolve_leading_oid_reference(&mut referenced, tlds, depth + 1);
+            oid.0.splice(0..1, referenced.0);
+        }
     }
 
     /// The name under which the type of a component or alternative is known:
